@@ -195,8 +195,8 @@ func c13BoundCounterexample(c *core.Ctx, rng *rand.Rand, record func(sched.Resul
 	}
 	cex := filepath.Join(c.Work, "bound-cex.json")
 	r, err := c.RunTLC(core.TLCOpts{Module: "Gen_Traversal", Cfg: "GenBound.cfg",
-		CfgText: "SPECIFICATION GenSpec\nINVARIANTS BoundAlways\nVIEW GView\nCHECK_DEADLOCK FALSE\n",
-		Env:     map[string]string{"CONFIGS": cfgPath, "OUT": filepath.Join(c.Work, "bound-out.ndjson")},
+		CfgText:   "SPECIFICATION GenSpec\nINVARIANTS BoundAlways\nVIEW GView\nCHECK_DEADLOCK FALSE\n",
+		Env:       map[string]string{"CONFIGS": cfgPath, "OUT": filepath.Join(c.Work, "bound-out.ndjson")},
 		ExtraArgs: []string{"-dumpTrace", "json", cex}, Workers: 4, Timeout: 5 * time.Minute, Name: "bound"})
 	if err != nil {
 		c.Inconclusive("bound counterexample search failed: " + err.Error())
